@@ -82,3 +82,41 @@ def run(unit, em):
             em.violation(where, 'MacroStateCache::insert equality', 'the stored macro-state is substituted without rejecting different cardinalities (`a.size() != b.size()`): a strict sub/superset with the same key would match')
         else:
             em.violation(where, 'MacroStateCache::insert equality', 'no element-wise inclusion test after the cardinality test')
+
+
+# ---- clause `sumkey`: the checksum that keys the macro-state cache decides nothing by itself
+def run_sumkey(unit, em):
+    """The cache key of a macro-state is the *sum* of its state numbers — many different sets share it (state 0 adds
+    nothing).  Instance: every local that is handed to MacroStateCache::insert as the key.  Obligation: it occurs in no
+    comparison; equal keys only select the bucket, equality of the sets is decided by insert() (main clause)."""
+    for fn in unit.functions:
+        if fn.body is None:
+            continue
+        keys = {}
+        for c in fn.calls():
+            if c['k'] == 'CXXMemberCallExpr' and method_name(c) == 'insert' and len(c.get('args', [])) == 2 and 'MacroStateCache' in unit.ty(strip(c.get('obj')) or c.get('obj') or {'t': -1}):
+                k = strip(c['args'][0])
+                if k is not None and k['k'] == 'DeclRefExpr' and k.get('dk') == 'local':
+                    keys[k['d']] = k.get('n')
+        if not keys:
+            continue
+        bad = {}
+        for n in fn.walk():
+            if n['k'] in ('BinaryOperator', 'CXXOperatorCallExpr') and n.get('op') in ('==', '!=', '<', '>', '<=', '>='):
+                for x in walk(n):
+                    if x['k'] == 'DeclRefExpr' and x.get('d') in keys:
+                        bad.setdefault(x['d'], n)
+        for d, name in keys.items():
+            cname = 'checksum key %s in %s' % (name, fn.q.split('::')[-1])
+            if d in bad:
+                em.violation(bad[d], cname, 'the sum of the state numbers of a macro-state is compared (`%s`) to take a decision: different sets have equal sums ({0} ∪ T and T always do), so pairs are treated as equal / skipped that are not' % unit.text(bad[d], 50), 'sumkey')
+            else:
+                em.ok(fn, cname, 'used only to select the cache bucket', 'sumkey')
+
+
+_run_eq = run
+
+
+def run(unit, em):
+    _run_eq(unit, em)
+    run_sumkey(unit, em)
